@@ -990,7 +990,9 @@ class Reaction(Object):
         if other == 0:
             return new_reaction
         else:
-            new_reaction += other
+            # add a copy so that the result never refers to (or registers itself
+            # with) the metabolites of the other operand
+            new_reaction += other.copy()
 
         return new_reaction
 
@@ -1048,7 +1050,7 @@ class Reaction(Object):
         Reaction - new reaction with the added properties.
         """
         new = self.copy()
-        new -= other
+        new -= other.copy()
         return new
 
     def __isub__(self, other: "Reaction") -> "Reaction":
